@@ -28,24 +28,24 @@ static int t_accept(const uint8_t* target, const uint8_t* f, uint32_t strict, ui
 
 static void body_selection(const uint32_t ngf, const uint32_t nnf) {
   h_init();
-  uint8_t grp[3][SL + 1], nam[3][SL + 1], ft[4][SL + 1];
-  uint32_t isign[3], fflag[8];
+  uint8_t grp[3][SL + 1], nam[3][SL + 1], ft[6][SL + 1];
+  uint32_t isign[3], fflag[12];
   /* inputs are declared one by one (no long harness loops: the unwinding bound then only has to cover the strings) */
 #define STR2(dst, nm) { IN_ARR_U8(nm, SL); for (int i = 0; i < SL; i++) dst[i] = nm[i]; dst[SL] = 0; }
   STR2(grp[0], g0) STR2(nam[0], n0) STR2(grp[1], g1) STR2(nam[1], n1)
 #if NT > 2
   STR2(grp[2], g2) STR2(nam[2], n2)
 #endif
-  STR2(ft[0], f0) STR2(ft[1], f1) STR2(ft[2], f2) STR2(ft[3], f3)
+  STR2(ft[0], f0) STR2(ft[1], f1) STR2(ft[2], f2) STR2(ft[3], f3) STR2(ft[4], f4) STR2(ft[5], f5)
   { IN_BOOL(i0); IN_BOOL(i1); isign[0] = i0; isign[1] = i1; }
 #if NT > 2
   { IN_BOOL(i2); isign[2] = i2; }
 #endif
-  { IN_BOOL(s0); IN_BOOL(v0); IN_BOOL(s1); IN_BOOL(v1); IN_BOOL(s2); IN_BOOL(v2); IN_BOOL(s3); IN_BOOL(v3);
-    fflag[0] = s0; fflag[1] = v0; fflag[2] = s1; fflag[3] = v1; fflag[4] = s2; fflag[5] = v2; fflag[6] = s3; fflag[7] = v3; }
+  { IN_BOOL(s0); IN_BOOL(v0); IN_BOOL(s1); IN_BOOL(v1); IN_BOOL(s2); IN_BOOL(v2); IN_BOOL(s3); IN_BOOL(v3); IN_BOOL(s4); IN_BOOL(v4); IN_BOOL(s5); IN_BOOL(v5);
+    fflag[0] = s0; fflag[1] = v0; fflag[2] = s1; fflag[3] = v1; fflag[4] = s2; fflag[5] = v2; fflag[6] = s3; fflag[7] = v3; fflag[8] = s4; fflag[9] = v4; fflag[10] = s5; fflag[11] = v5; }
   IN_BOOL(runign);
   for (int t = 0; t < NT; t++) h_add_test(isign[t] & 1, grp[t], nam[t]);
-  for (int k = 0; k < 4; k++) h_set_filter(k >= 2, k & 1, ft[k], fflag[2 * k] & 1, fflag[2 * k + 1] & 1);
+  for (int k = 0; k < 6; k++) h_set_filter(k >= 3, k % 3, ft[k], fflag[2 * k] & 1, fflag[2 * k + 1] & 1);   /* slots 0..2 group filters, 3..5 name filters */
   h_install_filters(ngf, nnf);
   h_run(runign);
   /* ---- reference */
@@ -53,7 +53,7 @@ static void body_selection(const uint32_t ngf, const uint32_t nnf) {
   for (int t = 0; t < NT; t++) {
     int gok = ngf == 0, nok = nnf == 0;
     for (uint32_t k = 0; k < ngf; k++) if (t_accept(grp[t], ft[k], fflag[2 * k] & 1, fflag[2 * k + 1] & 1)) gok = 1;
-    for (uint32_t k = 0; k < nnf; k++) if (t_accept(nam[t], ft[2 + k], fflag[4 + 2 * k] & 1, fflag[5 + 2 * k] & 1)) nok = 1;
+    for (uint32_t k = 0; k < nnf; k++) if (t_accept(nam[t], ft[3 + k], fflag[6 + 2 * k] & 1, fflag[7 + 2 * k] & 1)) nok = 1;
     int sel = gok && nok, ign = isign[t] & 1;
     uint32_t exec = sel && (!ign || runign);
     CHECK(executed[t] == exec, "a test executes exactly once iff it is selected and (normal or run-ignored is on)");
@@ -69,7 +69,7 @@ static void body_selection(const uint32_t ngf, const uint32_t nnf) {
 }
 
 #define SEL(a, b) HARNESS(harness_selection_##a##_##b) { body_selection(a, b); }
-SEL(0, 0) SEL(1, 0) SEL(0, 1) SEL(1, 1) SEL(2, 0) SEL(0, 2) SEL(2, 1) SEL(1, 2) SEL(2, 2)
+SEL(0, 0) SEL(1, 0) SEL(0, 1) SEL(1, 1) SEL(2, 0) SEL(0, 2) SEL(2, 1) SEL(1, 2) SEL(2, 2) SEL(3, 0) SEL(0, 3) SEL(3, 3)
 
 HARNESS(harness_permutation) {
   h_init();
